@@ -234,6 +234,43 @@ def deref(cfg, node, e, depth=3):
     return e
 
 
+def clone(e):
+    """a copy of an expression / statement subtree without the ``_parent`` back-links (a deepcopy
+    would follow them and copy the whole module)"""
+    if isinstance(e, list):
+        return [clone(x) for x in e]
+    if not isinstance(e, ast.AST):
+        return e
+    if isinstance(e, (ast.expr_context, ast.operator, ast.unaryop, ast.cmpop, ast.boolop)):
+        return e
+    new = type(e)()
+    for f in e._fields:
+        if hasattr(e, f):
+            setattr(new, f, clone(getattr(e, f)))
+    for a in ('lineno', 'col_offset', 'end_lineno', 'end_col_offset'):
+        if hasattr(e, a):
+            setattr(new, a, getattr(e, a))
+    return new
+
+
+def expand_locals(cfg, node, e, depth=4):
+    """``e`` with every local that has a single reaching definition replaced by that definition
+    (recursively): the expression written without 'extract variable' temporaries"""
+
+    class _Sub(ast.NodeTransformer):
+        def __init__(self, at, d):
+            self.at, self.d = at, d
+
+        def visit_Name(self, n):
+            if not isinstance(n.ctx, ast.Load) or self.d <= 0:
+                return n
+            defs = cfg.reaching_defs(self.at, n.id, split=False)
+            if len(defs) == 1 and isinstance(defs[0][1], ast.AST):
+                return _Sub(defs[0][0], self.d - 1).visit(clone(defs[0][1]))
+            return n
+    return _Sub(node, depth).visit(clone(e))
+
+
 def returns_of(unit):
     return [n for n in unit.own_nodes() if isinstance(n, ast.Return)]
 
@@ -513,7 +550,7 @@ def polarity(test, template):
     if isinstance(t, ast.Compare) and len(t.ops) == 1 and isinstance(test, ast.Compare) and len(test.ops) == 1 \
             and _COMPLEMENT.get(type(t.ops[0])) is type(test.ops[0]):
         import copy
-        flipped = copy.deepcopy(test)
+        flipped = clone(test)
         flipped.ops = [type(t.ops[0])()]
         if matches(flipped, template):
             return 'false'
@@ -724,7 +761,7 @@ def decision_function(unit):
                     if isinstance(node.ctx, ast.Load) and node.id in env:
                         return ast.parse(env[node.id], mode='eval').body
                     return node
-            return norm(Sub().visit(copy.deepcopy(e)))
+            return norm(Sub().visit(clone(e)))
         return norm(e)
 
     def run(stmts, asg, env):
@@ -909,3 +946,102 @@ def repetition_count(cfg, unit, loop):
         if len(defs) == 1 and isinstance(defs[0][1], ast.AST):
             return defs[0][1], c
     return None
+
+
+def code_slice(stmts, var, code):
+    """the statements of ``stmts`` that run when the local ``var`` (an op code, compared with string
+    constants only) equals ``code``: tests on var are decided (three-valued), the dead arm is
+    dropped, the live arm is spliced in; anything else is kept whole.  The slice ends at the first
+    statement that leaves the block (return / raise / continue / break)."""
+    def decide(t):
+        if isinstance(t, ast.BoolOp):
+            vals = [decide(v) for v in t.values]
+            if isinstance(t.op, ast.And):
+                return False if False in vals else (True if all(v is True for v in vals) else None)
+            return True if True in vals else (False if all(v is False for v in vals) else None)
+        if isinstance(t, ast.UnaryOp) and isinstance(t.op, ast.Not):
+            v = decide(t.operand)
+            return None if v is None else not v
+        if isinstance(t, ast.Compare) and len(t.ops) == 1 and is_name(t.left, var):
+            c, o = t.comparators[0], t.ops[0]
+            if isinstance(c, ast.Constant) and isinstance(c.value, str):
+                if isinstance(o, ast.Eq):
+                    return code == c.value
+                if isinstance(o, ast.NotEq):
+                    return code != c.value
+                if isinstance(o, ast.In):
+                    return code in c.value
+                if isinstance(o, ast.NotIn):
+                    return code not in c.value
+            if isinstance(c, (ast.Tuple, ast.List, ast.Set)) and all(isinstance(x, ast.Constant) for x in c.elts):
+                vals = [x.value for x in c.elts]
+                if isinstance(o, ast.In):
+                    return code in vals
+                if isinstance(o, ast.NotIn):
+                    return code not in vals
+        return None
+    out = []
+    for st in stmts:
+        if isinstance(st, ast.If):
+            v = decide(st.test)
+            if v is not None:
+                out += code_slice(st.body if v else st.orelse, var, code)
+                if out and isinstance(out[-1], (ast.Return, ast.Raise, ast.Continue, ast.Break)):
+                    break
+                continue
+        if not isinstance(st, ast.Pass):
+            out.append(st)
+        if isinstance(st, (ast.Return, ast.Raise, ast.Continue, ast.Break)):
+            break
+    return out
+
+
+def case_paths(stmts, decide, stop=None, env=None):
+    """follow the straight-line statements of ``stmts`` under a case hypothesis: ``decide(test)``
+    answers True / False for the tests the hypothesis settles and None for the others (both arms
+    are followed); plain local assignments are substituted into later expressions.  Outcomes:
+    ('return', expr, stmt, env) / ('raise', None, stmt, env) / ('stop', None, stmt, env) for the first
+    statement ``stop`` accepts (a loop, say) / ('fall', None, None, env) at the end."""
+    env = dict(env or {})
+
+    def subst(e, env):
+        class Sub(ast.NodeTransformer):
+            def visit_Name(self, node):
+                if isinstance(node.ctx, ast.Load) and node.id in env:
+                    return clone(env[node.id])
+                return node
+        return Sub().visit(clone(e))
+
+    def run(stmts, env):
+        if not stmts:
+            return [('fall', None, None, env)]
+        st, rest = stmts[0], stmts[1:]
+        if stop is not None and stop(st):
+            return [('stop', None, st, env)]
+        if isinstance(st, ast.Return):
+            return [('return', subst(st.value, env) if st.value is not None else ast.Constant(None), st, env)]
+        if isinstance(st, ast.Raise):
+            return [('raise', None, st, env)]
+        if isinstance(st, ast.If):
+            v = decide(subst(st.test, env))
+            arms = [st.body] if v is True else [st.orelse] if v is False else [st.body, st.orelse]
+            out = []
+            for arm in arms:
+                for o in run(list(arm), env):
+                    out += run(rest, o[3]) if o[0] == 'fall' else [o]
+            return out
+        if isinstance(st, ast.Assign) and len(st.targets) == 1 and not isinstance(st.value, ast.Lambda):
+            t = st.targets[0]
+            env = dict(env)
+            if isinstance(t, ast.Name):
+                env[t.id] = subst(st.value, env)
+            elif isinstance(t, ast.Tuple) and isinstance(st.value, ast.Tuple) and len(t.elts) == len(st.value.elts) \
+                    and all(isinstance(x, ast.Name) for x in t.elts):
+                vals = [subst(v, env) for v in st.value.elts]
+                for x, v in zip(t.elts, vals):
+                    env[x.id] = v
+            elif isinstance(t, ast.Attribute) and isinstance(t.value, ast.Name):
+                env['%s.%s' % (t.value.id, t.attr)] = subst(st.value, env)
+            return run(rest, env)
+        return run(rest, env)
+    return run(list(stmts), env), subst
